@@ -168,11 +168,11 @@ H("c08_multiple_values_others", "c08_steps::c08_multiple_values_others", ["C08",
   assumptions=["function, number, string, interpolated-string, type-cast and type-instantiation expressions are outside the bound"])
 
 # ---------------------------------------------------------------------------------------- C01 compute step
-for g in range(12):
+for g in range(16):
     H("c01_compute_and_or_g%d" % g, "c01_compute::c01_compute_and_or_g%d" % g, ["C01"], ["compute_expression::Computer::replace_with (and/or arms)", "LuaValue::is_truthy"],
-      "one `L and R` / `L or R` node, control scenarios of group %d of harness/src/c01_scenarios_g*.in (36 in all: operator x what evaluate(L) answers {nil, true, table, Unknown} x what has_side_effects answers for L and for the node x what evaluate(node) answers {nil, true, Unknown}); "
+      "one `L and R` / `L or R` node, control scenarios of group %d of harness/src/c01_scenarios_g*.in (48 in all: operator x what evaluate(L) answers {nil, true, table, Unknown} x what has_side_effects answers for L and for the node x what evaluate(node) answers {nil, true, Unknown}); "
       "operand values (any f64 for numbers), the right operand (leaf / call / `...`, value, effects) and the operands' real behaviour symbolic" % g,
-      tier="quick" if g == 0 else "thorough", mode="lean", timeout_s=1200, mem_gb=16, replay="compute_and_or_g%d" % g,
+      tier="quick" if g <= 1 else "thorough", mode="lean", timeout_s=1200, mem_gb=16, replay="compute_and_or_g%d" % g,
       stubs=[EVAL_STUB, SE_STUB, "LuaValue::to_expression -> records the folded value and returns a marker (literal construction runs log10/powf)",
              "<Expression as Clone>::clone -> copy of the harness's identifier leaves", "Computer::process_expression (the recursive re-processing of the replacement) -> no-op"],
       assumptions=["under Kani both operands are identifier leaves whatever their shape: replace_with looks at operands only through evaluate / has_side_effects / clone",
@@ -189,11 +189,12 @@ H("c06_if_branch", "c06_ifexpr::c06_if_branch", ["C06"],
                "native replay runs the real convert_if_branch with the real evaluator on realised operands"])
 
 for shape, text in [("leaf", "a single-valued leaf (value nil/false/true/any f64/string/table/function, known or Unknown)"), ("call", "a call"),
-                    ("varargs", "`...`"), ("not", "`not x`"), ("minus", "`-x`"), ("length", "`#x`")]:
-    H("c06_if_branch_result_" + shape, "c06_ifexpr::c06_if_branch_result_" + shape, ["C06"],
+                    ("varargs", "`...`"), ("not", "`not x`"), ("minus", "`-x`"), ("length", "`#x`"),
+                    ("same_leaf", "the very same leaf as the condition (`if a then a else e`)"), ("same_call", "the very same call as the condition (`if a() then a() else e`: two evaluations)")]:
+    H("c06_if_branch_" + ("" if shape.startswith("same") else "result_") + shape, "c06_ifexpr::c06_if_branch_" + ("" if shape.startswith("same") else "result_") + shape, ["C06"],
       ["remove_if_expression::Processor::convert_if_branch", "remove_if_expression::Processor::wrap_in_table", "Evaluator::can_return_multiple_values", "LuaValue::is_truthy"],
       "one if/else branch whose result operand is " + text + "; condition and else operands are leaves with symbolic values",
-      mode="lean", timeout_s=900, mem_gb=16, replay="if_branch_result_" + shape, stubs=[EVAL_STUB],
+      mode="lean", timeout_s=900, mem_gb=16, replay="if_branch_" + ("" if shape.startswith("same") else "result_") + shape, stubs=[EVAL_STUB],
       assumptions=["native replay runs the real convert_if_branch with the real evaluator on realised operands"])
 # c06_if_chain_* (the whole process_expression fold over two elseif branches, interpreted) are written
 # in harness/src/c06_ifexpr.rs but not registered: the slice-iterator loop of `fold` is unrolled to the
@@ -261,3 +262,10 @@ H("c13_quote_symbol_8", "c_scalar::c13_quote_symbol_8", ["C13"], ["generator::ut
 
 # c13_quoted_form (write_quoted on 1-2 ASCII bytes with `escape` stubbed, harness/src/c_scalar.rs) is written but not registered:
 # 3.9 M symex steps (String pushes of symbolic chars through encode_utf8), out of memory at 24 GB.
+
+for kind, text in [("unary", "`not a`"), ("if", "`if a then b else c`")]:
+    H("c01_compute_" + kind, "c01_compute::c01_compute_" + kind, ["C01"], ["compute_expression::Computer::replace_with (%s arm)" % kind],
+      "one " + text + " node; five control scenarios (what has_side_effects and evaluate answer for the node); the node's real value and effects symbolic within the induction hypothesis",
+      mode="lean", timeout_s=1200, mem_gb=16, replay=None,
+      stubs=[EVAL_STUB, SE_STUB, "LuaValue::to_expression -> records the folded value and returns a marker", "<Expression as Clone>::clone -> copy of identifier leaves", "Computer::process_expression -> no-op"],
+      assumptions=["no native replay: the node's analyses' answers are the solver's; a counterexample is reported as inconclusive unless reproduced by the and/or harnesses"])
